@@ -140,10 +140,39 @@ fn one_case(opts: &Opts, idx: u64, rng: &mut Rng, case_id: &str, mut shared: &mu
         let mut rng = rng.clone();
         let cfg = base_config(&mut rng);
         shared.config = cfg.clone();
-        let natoms = if rng.chance(1, 10) { 0 } else { rng.range(1, 6) };
+        // heavy cases: long needles over a long haystack so that the sum of the atom scores leaves the u16 range
+        let heavy = idx % 128 == 127;
+        let mut natoms = if rng.chance(1, 10) { 0 } else { rng.range(1, 6) };
         let mut pattern = Pattern::parse("", CaseMatching::Smart, Normalization::Smart);
-        pattern.atoms = (0..natoms).map(|_| gen_atom(&mut rng)).collect();
-        let hay_s = gen_hay(&mut rng);
+        let hay_s = if heavy {
+            let len = rng.range(1500, 5000);
+            (0..len).map(|_| *rng.pick(ALPHA)).collect::<String>()
+        } else {
+            gen_hay(&mut rng)
+        };
+        if heavy {
+            natoms = rng.range(2, 40);
+            let hc: Vec<char> = hay_s.chars().collect();
+            pattern.atoms = (0..natoms)
+                .map(|_| {
+                    let len = rng.range(40, 900).min(hc.len());
+                    let (kind, start) = match rng.below(8) {
+                        0 => (AtomKind::Prefix, 0),
+                        1 => (AtomKind::Postfix, hc.len() - len),
+                        2 | 3 => (AtomKind::Substring, rng.below(hc.len() - len + 1)),
+                        _ => (AtomKind::Fuzzy, rng.below(hc.len() - len + 1)),
+                    };
+                    let w: String = hc[start..start + len].iter().collect();
+                    let case = *rng.pick(&[CaseMatching::Respect, CaseMatching::Ignore]);
+                    let mut a = Atom::new(&w, case, Normalization::Never, kind, false);
+                    a.negative = rng.chance(1, 40);
+                    a
+                })
+                .collect();
+            rep.count("c15.heavy-cases");
+        } else {
+            pattern.atoms = (0..natoms).map(|_| gen_atom(&mut rng)).collect();
+        }
         let hay = Utf32String::from(hay_s.as_str());
         let mut h = Hasher64::new();
         h.add_chars(&hay_s.chars().collect::<Vec<_>>());
@@ -172,6 +201,9 @@ fn one_case(opts: &Opts, idx: u64, rng: &mut Rng, case_id: &str, mut shared: &mu
             }
         }
         rep.count(if exp_score.is_some() { "c15.matching" } else { "c15.non-matching" });
+        if exp_score.map_or(false, |s| s > u16::MAX as u32) {
+            rep.count("c15.sum-beyond-u16");
+        }
         if pattern.atoms.iter().any(|a| a.negative) {
             rep.count("c15.with-negation");
         }
@@ -244,6 +276,10 @@ fn one_case(opts: &Opts, idx: u64, rng: &mut Rng, case_id: &str, mut shared: &mu
             if n_items >= 2 && rng.coin() {
                 let d = items[0].clone();
                 items.push(d); // duplicates / ties
+            }
+            if heavy {
+                items.insert(rng.below(items.len() + 1), hay_s.clone());
+                items.push(hay_s.clone());
             }
             let mut expected: Vec<(usize, u32)> = Vec::new();
             for (k, it) in items.iter().enumerate() {
